@@ -1256,6 +1256,15 @@ class Gen:
         fn_line = line_of(src, loc["fn_tok"])
         lo, hi = loc["body_open"], loc["body_close"]
         orig_fn_text = src[loc["start"]:hi]
+        dropped_arms = []
+        if arms:
+            # arm focus first, so that the other rules never look at dropped arms
+            a_edits, dropped_arms = rule_A(src, lo, hi, arms)
+            new_body = apply_edits(src, lo, hi, a_edits)
+            self.log.append(dict(rule="A", file=rel, line=fn_line, fn=name, before="%d match arms dropped: %s" % (len(dropped_arms), "; ".join(dropped_arms))[:300],
+                                 after="{ return self.vx_other_arm(); }"))
+            src = src[:lo] + new_body + src[hi:]
+            hi = lo + len(new_body)
         if "N6" in enabled and re.search(r"\.iter\(\)\s*\.(any|filter)\(", src[lo:hi]):
             new_body = desugar_iter_chains(src[lo:hi], self.log, rel, fn_line)
             src = src[:lo] + new_body + src[hi:]
@@ -1280,10 +1289,6 @@ class Gen:
         edits += rule_N3(src, lo, hi, enabled)
         edits += rule_N4(src, lo, hi, enabled)
         edits += rule_N5(src, lo, hi, enabled)
-        dropped_arms = []
-        if arms:
-            a_edits, dropped_arms = rule_A(src, lo, hi, arms)
-            edits += a_edits
         for rule, s, e, repl in edits:
             if rule not in ("D1", "D2"):
                 pass
